@@ -61,6 +61,8 @@ def combinators(ctx):
     rqs = lambda: perturb(B.RationalQuadraticSpline(knots=5, interval=3), rng, 1.0)
     out = []
     out.append(("chain[affine,tanh-inv,leaky]", 3, None, B.Chain([aff((3,)), B.Invert(B.Tanh((3,))), B.Tanh((3,)), B.LeakyTanh(2.0, (3,))])))
+    out.append(("affine-ctor-bcast-scalar-scale", 3, None, B.Affine(jnp.asarray(rng.normal(0, 1, 3)), float(np.exp(rng.normal(0.8, 0.3))))))
+    out.append(("affine-ctor-bcast-row-scale", (2, 3), None, B.Affine(jnp.asarray(rng.normal(0, 1, (2, 1))), jnp.asarray(np.exp(rng.normal(0.5, 0.5, 3))))))
     out.append(("vmap-rqs", 3, None, B.Vmap(rqs(), axis_size=3)))
     out.append(("concat[aff,exp-chain]", 4, None, B.Concatenate([aff((2,)), B.Chain([aff((2,)), B.SoftPlus((2,)), B.Invert(B.SoftPlus((2,)))])])))
     out.append(("stack-axis-1[aff,aff]", (3, 2), None, B.Stack([aff((3,)), aff((3,))], axis=-1)))
